@@ -4,6 +4,8 @@
   The empirical law of the outputs is correspondence/oracle-only (props/c18.py).
 -/
 import LpProofs.C18.Lemmas
+import LpProofs.C18.Poisson
+import Mathlib.Tactic.NormNum
 namespace Lp.C18
 
 variable {G : Type}
@@ -255,6 +257,57 @@ def poisson_knuth_FULL : Prop :=
     (∀ k m : Nat, 1 ≤ k → (m : Rat) * step < lam → prodU u01 g k * exp (m * step) ≠ 1) →
     samplePoisson u01 exp (fun x => x) step rf fuel g lam = some (K, gout) →
       gout = adv u01 (K + 1) g ∧ prodU u01 g (K + 1) * exp lam ≤ 1 ∧ ∀ j, 1 ≤ j → j ≤ K → 1 < prodU u01 g j * exp lam
+
+/-- **no rescaling** (`0 < λ ≤ STEP`, expectation values up to 500): the sampler returns the least `K`
+    with `u₁…u_{K+1}·exp λ ≤ 1` (Knuth's rule `∏ u < e^{-λ}` up to the tie) and consumes exactly `K+1`
+    uniforms.  Needs nothing of `exp`; `rf ≥ 1` iterations of the inner loop suffice. -/
+theorem poisson_knuth_partial (u01 : U01 G) (hu : Unit01 u01) (exp : Rat → Rat) (step lam : Rat) (rf fuel : Nat) (g gout : G) (K : Nat)
+    (hlam : 0 < lam) (hstep : lam ≤ step) (hrf : 1 ≤ rf)
+    (h : samplePoisson u01 exp (fun x => x) step rf fuel g lam = some (K, gout)) :
+    gout = adv u01 (K + 1) g ∧ prodU u01 g (K + 1) * exp lam ≤ 1 ∧ ∀ j, 1 ≤ j → j ≤ K → 1 < prodU u01 g j * exp lam := by
+  obtain ⟨hu0, hu1⟩ := hu g
+  cases fuel with
+  | zero => simp [samplePoisson, poisLoop] at h
+  | succ fuel =>
+    obtain ⟨f, rfl⟩ : ∃ f, rf = f + 1 := ⟨rf - 1, by omega⟩
+    simp only [samplePoisson, poisLoop, one_mul] at h
+    have hr : poisRescale exp (fun x => x) step (f + 1) (u01 g).1 lam = ((u01 g).1 * exp lam, 0) := by
+      simp only [poisRescale]
+      rw [if_pos ⟨hu1, hlam⟩, if_neg (not_lt.mpr hstep)]
+      exact poisRescale_zero exp step f _
+    rw [hr] at h
+    dsimp only at h
+    split_ifs at h with h1
+    · obtain ⟨n, hK, hg, hle, hgt⟩ := poisLoop_zero_phase u01 exp step (f + 1) _ _ _ _ _ _ h
+      have hK' : K = n + 1 := by omega
+      subst hK'
+      refine ⟨?_, ?_, ?_⟩
+      · rw [hg]; rfl
+      · rw [prodU_front]
+        have e : (u01 g).1 * prodU u01 (u01 g).2 (n + 1) * exp lam = (u01 g).1 * exp lam * prodU u01 (u01 g).2 (n + 1) := by ring
+        rw [e]; exact hle
+      · intro j hj1 hj2
+        cases j with
+        | zero => omega
+        | succ j =>
+          rw [prodU_front]
+          cases j with
+          | zero => simpa [prodU] using h1
+          | succ j =>
+            have := hgt (j + 1) (by omega) (by omega)
+            have e : (u01 g).1 * prodU u01 (u01 g).2 (j + 1) * exp lam = (u01 g).1 * exp lam * prodU u01 (u01 g).2 (j + 1) := by ring
+            rw [e]; exact this
+    · simp only [Option.some.injEq, Prod.mk.injEq] at h
+      obtain ⟨hK, hg⟩ := h
+      subst hK
+      refine ⟨?_, ?_, ?_⟩
+      · rw [← hg]; rfl
+      · rw [prodU_front]; simp only [prodU, mul_one]; exact not_lt.mp h1
+      · intro j hj1 hj2; omega
+
+-- non-vacuity: a source with u = 1/4 and `exp λ = 5`: 5/4 > 1, 5/16 ≤ 1, so K = 1 after two uniforms
+example : samplePoisson (G := Nat) (fun n => ((1 : Rat) / 4, n + 1)) (fun _ => 5) (fun x => x) 500 1 10 0 1 = some (1, 2) := by
+  norm_num [samplePoisson, poisLoop, poisRescale]
 
 /-- every sampler is a function `G → Out × G` of the passed generator: equal states give equal
     outputs and equal states afterwards (true by construction of the model; that the C++ has this
